@@ -168,6 +168,18 @@ type c10PeerSess struct {
 	buffered  map[uint32][]byte
 	opened    bool // open request / response seen
 	closeSeen bool // the peer sent closeSessionRequest / closeSessionResponse
+	// receive window the real endpoint advertised in its data / ack segments (window stage)
+	winSeen   int
+	minWindow uint16
+	lastWin   uint16
+}
+
+func (s *c10PeerSess) noteWindow(w uint16) {
+	if s.winSeen == 0 || w < s.minWindow {
+		s.minWindow = w
+	}
+	s.winSeen++
+	s.lastWin = w
 }
 
 type c10Peer struct {
@@ -311,6 +323,7 @@ func (p *c10Peer) onSegmentLocked(g *wire.Segment) {
 		if g.UnAck > s.peerUnAck {
 			s.peerUnAck = g.UnAck
 		}
+		s.noteWindow(g.Window)
 		if p.udp {
 			if g.Seq >= s.nextRecv {
 				s.buffered[g.Seq] = append([]byte(nil), g.Payload...)
@@ -342,6 +355,7 @@ func (p *c10Peer) onSegmentLocked(g *wire.Segment) {
 		if g.UnAck > s.peerUnAck {
 			s.peerUnAck = g.UnAck
 		}
+		s.noteWindow(g.Window)
 	}
 }
 
